@@ -197,4 +197,13 @@ def run_case(c, stats):
             call(m.accepts, w)
         call(m.minimize)
     call(fa.copy)
+    if c.get("edits"):
+        # the automaton is edited through the public mutators and queried again (same object)
+        gfa.apply_edits(fa, c)
+        stats.cls("edited")
+        for w in words[:40]:
+            call(fa.accepts, w)
+        call(fa.to_deterministic)
+        call(fa.remove_epsilon_transitions)
+        call(fa.minimize)
     return nontrivial
